@@ -93,7 +93,7 @@ def siteToJson (cls : Text) (s : Site) : Json :=
               ("head", .str (ofText (siteHead cls s)))]
 
 def p1KindName : P1Kind → String
-  | .named => "named" | .inner => "inner" | .foreign => "foreign"
+  | .named => "named" | .inner => "inner" | .foreign => "foreign" | .nested => "nested"
 
 /-- phase-one site vs the aligned real text (class prefix stripped when `pre` is given) -/
 def p1SiteToJson (pre : Option Text) (s : P1Site) (t : Option Text) : Json :=
@@ -132,14 +132,44 @@ def run (j : Json) : Except String Json := do
   let alnum := ((← optStr j "alnum").getD "").toList
   let order ← strList j "order"
   let scratch ← scratchOfJson j
+  let opts : DeserOpts := { keepUndefined := ← optBool j "keepUndefined" true,
+                            ignoreInvalidAddl := ← optBool j "ignoreInvalidAddl" true }
+  -- a class typedpy derived (Partial / AllFieldsRequired / Extend / Omit / Pick): its NAME is the model's
+  let via ← optStr j "via"
+  let viaName ← optStr j "viaName"
+  let baseName := ((← optStr j "baseName").getD "").toList
+  let derive : Option Derive := match via with
+    | some "partial" => some .partialOf | some "allrequired" => some .allRequired
+    | some "extend" => some .extend | some "omit" => some .omit | some "pick" => some .pick
+    | _ => none
+  let decl : FieldDecl := match decl, derive with
+    | FieldDecl.struct c fields dflt, some d =>
+      FieldDecl.struct { c with name := String.ofList (derivedName d (viaName.map (·.toList)) baseName) } fields dflt
+    | d, _ => d
   match decl with
   | .struct c fields _ =>
     -- the document as handed to the real code (document keys), re-keyed through the mapper
     let doc := if mapper.isEmpty then rawDoc else docOfMapped mapper rawDoc fields
     let cls := c.name.toList
-    let invalid := invalidFields O c kw fields
-    let ss := sites O c kw fields
     let flat := fields.all fun nf => isFlatDecl nf.2
+    -- the extended domain of the path model: collections at any depth over scalars / class references
+    let pathOk := fields.all fun nf => isPathDecl nf.2
+    -- deserialization of a class outside the flat domain: accept / reject, the deserialized
+    -- constructor arguments and the invalid set come from `deser` (Sem/Deser.lean) at any depth
+    let deep := mode == "deser" && !flat
+    -- for the deserialization model: the class with every nested class's fields in DEFINITION order
+    let fieldsDef ← match optField j "clsDef" with
+      | none => pure fields
+      | some x => do
+        match (← declOfJson x) with
+        | .struct _ fs _ => pure fs
+        | _ => pure fields
+    let declDef := fun (n : String) => (lookup n fieldsDef)
+    -- top-level fields in signature order, each with its definition-order declaration
+    let fieldsD := fields.map fun nf => (nf.1, (declDef nf.1).getD nf.2)
+    let kw := if deep then deserArgs O opts c.ignoreNone doc fieldsD else kw
+    let invalid := if deep then deserInvalid O opts c.ignoreNone doc fieldsD else invalidFields O c kw fields
+    let ss := sites O c kw fields
     let bind := !bindOk c (fields.map (·.1)) kw
     let kind := if bind then "bind" else match ss with
       | [] => "nothing"
@@ -154,7 +184,10 @@ def run (j : Json) : Except String Json := do
     let cmp := (expected.zip texts).map fun st => siteVsText cls st.1 st.2
     -- phase-one sites of deserialization, in class-definition order, aligned with the real texts
     let defFields := order.filterMap fun n => (lookup n fields).map fun f => (n, f)
-    let p1 := p1Sites O scratch doc (if order.isEmpty then fields else defFields)
+    let defFieldsD := (if order.isEmpty then fields.map (·.1) else order).filterMap fun n =>
+      (lookup n fieldsD).map fun f => (n, f)
+    let p1 := if deep then p1SitesD O opts c.ignoreNone scratch doc defFieldsD
+              else p1Sites O scratch doc (if order.isEmpty then fields else defFields)
     let p1Expected := if ff then p1.take 1 else p1
     let p1Pre : Option Text := if ff then none else some cls
     let p1Json := (List.range p1Expected.length).map fun i =>
@@ -164,12 +197,16 @@ def run (j : Json) : Except String Json := do
     let base := [("p1sites", Json.arr p1Json.toArray),
                  ("invalid", Json.arr (invalid.map Json.str).toArray),
                  ("flat", Json.bool flat),
+                 ("clsName", Json.str c.name),
+                 ("path", Json.bool pathOk),
                  ("kind", Json.str kind),
                  ("sites", Json.arr (expected.map (siteToJson cls)).toArray),
                  ("nTexts", Json.num (Lean.JsonNumber.fromNat texts.length)),
                  ("cmp", Json.arr cmp.toArray),
                  ("mode", Json.str mode),
-                 ("phase1", Json.arr ((phaseOneInvalid O doc fields).map Json.str).toArray),
+                 ("deep", Json.bool deep),
+                 ("phase1", Json.arr ((if deep then (p1SitesD O opts c.ignoreNone scratch doc fieldsD).map (·.top)
+                                       else phaseOneInvalid O doc fields).map Json.str).toArray),
                  ("deserCollected", Json.arr ((deserCollected O c doc kw fields).map Json.str).toArray)]
     let rd := match msg with
       | none => []
